@@ -14,7 +14,7 @@
 // Bound (stated): programs of <= `maxlen` operations from {small commit, delete of the last small key,
 // fill the active memtable to 3/4, one big value (forces ArenaFull after a fill), settle (wait for background
 // flush + WAL clean-up), rotate the memtable, flush the oldest immutable memtable, crash+reopen, crash+reopen
-// with a half-size memtable, torn-tail crash+reopen} plus 13 fixed longer programs;
+// with a half-size memtable, torn-tail crash+reopen} plus 16 fixed longer programs;
 // memtable 64 KiB / 32 KiB; after every program: crash, reopen, compare, commit, crash, reopen, compare.
 use super::*;
 use crate::{Durability, LSMIterator as _, Tree, TreeBuilder};
@@ -308,6 +308,11 @@ async fn crash_enum_impl(maxlen: usize, name: &str, part: usize, parts: usize) {
 		vec![Small, Rotate, Small, Rotate, FlushOne, FlushOne, Small],
 		vec![Fill, Rotate, Small, Rotate, Small, Rotate, FlushOne, Torn],
 		vec![Small, Rotate, Del, Rotate, FlushOne],
+		// the torn record is the ONLY record of the newest segment and every older segment is already cleaned up:
+		// the repair removes that segment, and the writer must not fall back to a segment below the log number
+		vec![Small, Rotate, FlushOne, Torn],
+		vec![Small, Rotate, FlushOne, Torn, Small],
+		vec![Fill, Big, Settle, Torn, Small, Torn],
 	];
 	for ops in programs.into_iter().chain(extra.into_iter()) {
 		let len = ops.len();
